@@ -1,8 +1,109 @@
-/- line-protocol handlers for the C17 models (stub: nothing modelled yet) -/
-import FontVerif.Model.Base
-namespace FontVerif.Drv.C17
-open FontVerif
+/- line-protocol handlers for the C17 models (Model/Subset.lean)
 
-def handle (_cmd : String) (_args : List String) : Option String := none
+requests (space separated; `-` = empty list; sections introduced by single capital letters):
+  c17.plan  <flags> <num> C <cp gid>… G <per-gid: 0 | k c1…ck>… I <gid>… U <cp>… X <gid>… Y <gid>…
+  c17.hmtx  <nout> L <adv lsb>… S <lsb>… M <new old>…
+  c17.maxp  <flags> <nout> <hex>
+  c17.glyf  <flags> <nout> M <new old>… D <per kept glyph: - | hex | E>…
+  c17.glyph <flags> M <old new>… D <hex>
+  c17.trim  <numCoords> <hex>
+  c17.closure <rem> <ops> <gid> G <comps> S <set>…
+responses: see the `fmt*` functions (identical strings are produced by harness/src/bin/c17.rs)
+-/
+import FontVerif.Model.Subset
+namespace FontVerif.Drv.C17
+open FontVerif FontVerif.Subset
+
+/-- split `args` into sections at the given marker tokens, in order; the part before the first
+marker is returned first -/
+def sections (markers : List String) (args : List String) : Option (List (List String)) :=
+  match markers with
+  | [] => some [args]
+  | m :: ms =>
+    let pre := args.takeWhile (· ≠ m)
+    match args.dropWhile (· ≠ m) with
+    | [] => none
+    | _ :: rest => (sections ms rest).map (pre :: ·)
+
+def natList (ts : List String) : Option (List Nat) :=
+  if ts = ["-"] then some [] else parseNats? ts
+
+def pairList (ts : List String) : Option (List (Nat × Nat)) := do
+  let ns ← natList ts
+  let rec go : List Nat → Option (List (Nat × Nat))
+    | [] => some []
+    | [_] => none
+    | a :: b :: rest => (go rest).map ((a, b) :: ·)
+  go ns
+
+def compsList (ts : List String) : Option (List (List Nat)) := do
+  let ns ← natList ts
+  let rec go : Nat → List Nat → Option (List (List Nat))
+    | _, [] => some []
+    | 0, _ => none
+    | fuel + 1, k :: rest =>
+      if rest.length < k then none else (go fuel (rest.drop k)).map (rest.take k :: ·)
+  go (ns.length + 1) ns
+
+def fmtPairs (ps : List (Nat × Nat)) : String :=
+  if ps.isEmpty then "-" else " ".intercalate (ps.map (fun p => s!"{p.1} {p.2}"))
+
+def fmtPlan (p : Plan) : String :=
+  s!"gsub:{joinNats p.gsub}|colred:{joinNats p.colred}|set:{joinNats p.glyphset}|n2o:{fmtPairs p.n2o}|u2g:{fmtPairs p.u2g}|nout:{p.nout}"
+
+def fmtGlyph : GlyphRes → String
+  | .bytes b => toHex b
+  | .readErr => "readerr"
+  | .trap => "trap"
+
+def parseSlot (t : String) : Option Slot :=
+  if t = "-" then some .empty else if t = "E" then some .err else (parseHex? t).map .data
+
+def handle (cmd : String) (args : List String) : Option String :=
+  match cmd with
+  | "c17.plan" => do
+    let [hd, c, g, i, u, x, y] ← sections ["C", "G", "I", "U", "X", "Y"] args | none
+    let [flags, num] ← parseNats? hd | none
+    let p : PlanIn := { flags, num, cmap := ← pairList c, comps := ← compsList g, gids := ← natList i,
+                        unicodes := ← natList u, extraGsub := ← natList x, extraColred := ← natList y }
+    match makePlan p with
+    | none => some "trap"
+    | some pl => some (fmtPlan pl)
+  | "c17.hmtx" => do
+    let [hd, l, s, m] ← sections ["L", "S", "M"] args | none
+    let [nout] ← parseNats? hd | none
+    match subsetHmtx (← pairList l) (← natList s) (← pairList m) nout with
+    | .error e => some e
+    | .ok o => some s!"ok {o.numH} {toHex o.bytes}"
+  | "c17.maxp" => do
+    let [flags, nout, h] := args | none
+    match subsetMaxp (← parseNat? flags) (← parseNat? nout) (← parseHex? h) with
+    | none => some "unmodelled"
+    | some b => some (toHex b)
+  | "c17.glyf" => do
+    let [hd, m, d] ← sections ["M", "D"] args | none
+    let [flags, nout] ← parseNats? hd | none
+    let n2o ← pairList m
+    let slots ← if n2o.isEmpty then (if d = ["-"] then some [] else none) else d.mapM parseSlot
+    if slots.length ≠ n2o.length then none else
+    match subsetGlyf flags nout n2o slots with
+    | .error e => some e
+    | .ok o => some s!"fmt={o.fmt} loca={toHex o.loca} glyf={toHex o.glyf}"
+  | "c17.glyph" => do
+    let [hd, m, d] ← sections ["M", "D"] args | none
+    let [flags] ← parseNats? hd | none
+    let map ← pairList m
+    let [h] := d | none
+    some (fmtGlyph (subsetGlyphBytes flags (fun old => lookupNat old map) (← parseHex? h)))
+  | "c17.trim" => do
+    let [n, h] := args | none
+    some (toString (trimSimpleGlyphPadding (← parseHex? h) (← parseNat? n)))
+  | "c17.closure" => do
+    let [hd, g, s] ← sections ["G", "S"] args | none
+    let [rem, ops, gid] ← parseInts? hd | none
+    if rem < 0 ∨ gid < 0 then none else
+    let r := closureGo (← compsList g) rem.toNat gid.toNat (← natList s, ops)
+    some s!"{joinNats (sortedBelow 70000 r.1)} {r.2}"
+  | _ => none
 
 end FontVerif.Drv.C17
